@@ -124,10 +124,13 @@ func (pp *ProfilePropParser) GetFullName(propertyTable map[string]string) string
 		return ""
 	}
 
+	// Either part of the name may be missing
 	fullName := propertyTable[ProfileFirstnameProp]
 	lastName := propertyTable[ProfileLastnameProp]
 	if fullName != "" && lastName != "" {
 		fullName += " " + lastName
+	} else if fullName == "" {
+		fullName = lastName
 	}
 
 	return fullName
